@@ -230,7 +230,7 @@ Proof.
   unfold own1, shc in *.
   constructor.
   - intros u l0 Hu. destruct (nth_upd _ _ _ _ _ Hu) as [[-> [-> _]]|[_ Hu']]; [exact Hok|]. eapply I_ok; eauto.
-  - intros u. rewrite (locof_upd _ _ _ _ _ Hl). specialize (IX u).
+  - intros u. rewrite (locof_upd _ _ _ _ _ Hl). specialize (IX u). unfold own1.
     destruct k as [[[|] [|]]|]; cbn [mrel addx subx adds subs take drop set_mutex owner sharers obtainable] in *.
     + destruct Hm as [Hf [Ho Hsh]]. rewrite Ho. destruct (Nat.eqb_spec u t) as [->|Hne]; [lia|exact IX].
     + destruct Hm as [Hf [Ho Hsh]]. unfold free_x in Hf. rewrite Ho.
@@ -245,7 +245,7 @@ Proof.
       destruct (Nat.eqb_spec u t) as [->|Hne]; [cbn in *; lia|].
       destruct (Nat.eqb_spec t u); [congruence|]. cbn in IX. exact IX.
     + destruct Hm as [Ho Hsh]. rewrite Ho. destruct (Nat.eqb_spec u t) as [->|Hne]; [lia|exact IX].
-  - intros u. rewrite (locof_upd _ _ _ _ _ Hl). specialize (IS u).
+  - intros u. rewrite (locof_upd _ _ _ _ _ Hl). specialize (IS u). unfold shc.
     destruct k as [[[|] [|]]|]; cbn [mrel addx subx adds subs take drop set_mutex owner sharers obtainable] in *.
     + destruct Hm as [Hf [Ho Hsh]]. rewrite Hsh. rewrite count_occ_app. cbn [count_occ].
       destruct (Nat.eqb_spec u t) as [->|Hne].
@@ -308,4 +308,85 @@ Proof.
   - intros u. destruct (P u) as [->|[p ->]]; reflexivity.
   - intros u. destruct (P u) as [->|[p ->]]; reflexivity.
   - reflexivity.
+Qed.
+
+(* ---------- preservation of the lock accounting ---------- *)
+Ltac bool_hyps :=
+  repeat match goal with
+  | H : negb _ = false |- _ => apply negb_false_iff in H
+  | H : negb _ = true |- _ => apply negb_true_iff in H
+  | H : _ || _ = false |- _ => apply orb_false_iff in H; destruct H
+  | H : in_range _ = true |- _ => apply in_range_lt in H
+  | H : Nat.eqb _ _ = false |- _ => apply Nat.eqb_neq in H
+  end.
+(* pose the counting equations of every updated slot table in the goal *)
+Ltac cnt_facts cf sl0 Hlen :=
+  repeat match goal with
+  | |- context [cnt ?f (upd ?sl ?h ?y)] =>
+    lazymatch goal with
+    | _ : (cnt f (upd sl h y) + _ = _)%nat |- _ => fail
+    | _ => let E := fresh "EC" in
+           assert (cnt f (upd sl h y) + oh f (slot sl h) = cnt f sl + oh f y)%nat as E
+             by (apply cnt_upd; first [ lia | eapply slot_some_lt; eassumption ]);
+           generalize dependent (cnt f (upd sl h y)); intros
+    end
+  end.
+Ltac hx_simpl := unfold hx, hs, b2n in *; cbn [hown hsh hnn hid oh disown nulled] in *.
+
+Lemma Inv1_step cf : forall g ls t c l g' l' es,
+  Inv1 cf g ls -> nth_error ls t = Some l -> tstep cf t c g l = Some (g', l', es) -> Inv1 cf g' (upd ls t l').
+Proof.
+  intros g ls t c l g' l' es HI Hl Hs.
+  pose proof (locok_step _ _ _ _ _ _ _ _ (I_ok _ _ _ HI _ _ Hl) Hs) as Hok'.
+  destruct (I_ok _ _ _ HI _ _ Hl) as [Hlen Hpc].
+  destruct l as [pr p sl]. cbn [at_ slots] in *.
+  step_cases Hs; bool_hyps.
+  all: try match goal with H : acquire ABlock _ _ _ _ = Some (_, ?b, _) |- _ => pose proof (acquire_block _ _ _ _ _ _ _ H); subst b end.
+  all: try match goal with H : acquire _ _ _ _ _ = Some (_, ?b, _) |- _ => is_var b; destruct b end.
+  all: first
+    [ match goal with H : acquire _ ?sm _ _ _ = Some (_, true, _) |- _ =>
+        destruct (acquire_true _ _ _ _ _ _ _ H) as [Hobt ->];
+        eapply (Inv1_upd cf _ ls t _ _ _ (Some (true, sm)) HI Hl Hok'); [exact (mrel_take _ _ _ _ Hobt)| |] end
+    | match goal with H : acquire _ ?sm _ _ _ = Some (_, false, _) |- _ =>
+        destruct (acquire_false _ _ _ _ _ _ _ H) as [Hobt ->];
+        eapply (Inv1_upd cf _ ls t _ _ _ None HI Hl Hok'); [split; reflexivity| |] end
+    | match goal with H : release ?sm _ _ _ = (_, _) |- _ =>
+        rewrite (release_eq _ _ _ _ _ _ H);
+        eapply (Inv1_upd cf _ ls t _ _ _ (Some (false, sm)) HI Hl Hok'); [exact (mrel_drop _ _ _ _)| |] end
+    | match goal with |- context [exec_mi ?a ?b ?c ?d ?e ?f ?g0] =>
+        eapply (Inv1_upd cf _ ls t _ _ _ None HI Hl Hok'); [exact (exec_mi_mutex a b c d e f g0)| |] end
+    | eapply (Inv1_upd cf _ ls t _ _ _ None HI Hl Hok'); [split; reflexivity| |]
+    | idtac "NOAPP"; match goal with |- ?G => idtac G end; give_up ].
+  all: unfold lx, lsh; cbn [at_ slots pcx pcs addx subx adds subs].
+  all: try lia.
+  all: try match goal with |- context [after_rel ?k _] => destruct k; unfold after_rel; cbn [rel_slot] in * end.
+  all: repeat match goal with
+       | H : exists _, _ |- _ => destruct H
+       | H : _ /\ _ |- _ => destruct H
+       end.
+  all: try match goal with H : slot ?sl ?s <> None |- _ => destruct (slot sl s) eqn:?; [|congruence] end.
+  all: try match goal with |- context [do_move ?sl ?s ?d] =>
+         match goal with Hs : slot sl s = Some ?x |- _ =>
+           let E1 := fresh "EM" in let E2 := fresh "EM" in
+           assert (d < length sl)%nat by first [ lia | eapply slot_some_lt; eassumption ];
+           pose proof (cnt_move (hx cf) sl s d x Hs ltac:(assumption) ltac:(assumption)) as E1;
+           pose proof (cnt_move (hs cf) sl s d x Hs ltac:(assumption) ltac:(assumption)) as E2;
+           rewrite ?hx_disown, ?hs_disown in *
+         end end.
+  all: repeat match goal with H : slot _ ?h = _ |- _ => rewrite H in * end.
+  all: repeat match goal with H : Some _ = Some _ |- _ => inversion H; clear H; subst end.
+  all: cnt_facts cf sl Hlen.
+  all: repeat match goal with H : slot _ ?h = _ |- _ => rewrite H in * end.
+  all: unfold gmode in *; repeat match goal with H : wop_code _ _ = _ |- _ => rewrite H in * end.
+  all: repeat match goal with |- context [cnt ?f ?l] => let C := fresh "C" in set (C := cnt f l) in * end.
+  all: hx_simpl.
+  all: repeat match goal with
+       | H : ?a = true |- _ => rewrite H in *
+       | H : ?a = false |- _ => rewrite H in *
+       end; cbn [andb negb orb] in *.
+  all: try lia.
+  all: repeat match goal with
+       | |- context [if ?b then _ else _] => destruct b eqn:?
+       | H : context [if ?b then _ else _] |- _ => destruct b eqn:?
+       end; cbn [andb negb orb] in *; try lia.
 Qed.
